@@ -20,10 +20,11 @@ import shutil
 ID = "C02"
 DRIVER = "drv_c02"
 LEAN_TARGETS = ["PharmpyProofs.C02.Properties", "PharmpyProofs.C02.AdvanProperties", "PharmpyProofs.C02.RecordProperties",
-                "PharmpyProofs.C02.DoseProperties", "PharmpyProofs.C02.ModelRecordProperties", "drv_c02"]
+                "PharmpyProofs.C02.DoseProperties", "PharmpyProofs.C02.ModelRecordProperties", "PharmpyProofs.C02.RateNameProperties", "drv_c02"]
 PROPERTIES = ["PharmpyProofs/C02/Properties.lean", "PharmpyProofs/C02/AdvanProperties.lean", "PharmpyProofs/C02/RecordProperties.lean",
-              "PharmpyProofs/C02/DoseProperties.lean", "PharmpyProofs/C02/ModelRecordProperties.lean"]
-LEAN_SOURCES = ["PharmpyModel/Core/*.lean", "PharmpyModel/C02/*.lean", "PharmpyModel/Generated/PkConv.lean",
+              "PharmpyProofs/C02/DoseProperties.lean", "PharmpyProofs/C02/ModelRecordProperties.lean",
+              "PharmpyProofs/C02/RateNameProperties.lean"]
+LEAN_SOURCES = ["PharmpyModel/Core/*.lean", "PharmpyModel/C02/*.lean", "PharmpyModel/C01/Rates.lean", "PharmpyModel/Generated/PkConv.lean",
                 "PharmpyProofs/C02/*.lean", "Drivers/C02.lean"]
 TIME_LIMIT = {"quick": 900, "thorough": 3000}
 CASE_CPU_LIMIT = 120
@@ -423,6 +424,12 @@ def corpus_cases():
         {"kind": "record", "text": "X1 = 0\nCL = THETA(1)",
          "edits": [[["ins", 2, "X1", "Piecewise((1, And(Eq(FA1, 1), Or(Eq(APGR, 1), Eq(APGR, 2)))), (2, True))"]],
                    [["ins", 3, "X2", "Piecewise((1, Or(Eq(FA1, 1), And(Eq(APGR, 1), Eq(VISI, 2)))), (2, True))"]]], "seed": 22},
+        # fixed 6008bd6: eleven or more compartments, flow from a two-digit compartment to the output (K110 ambiguous -> K11T0)
+        {"kind": "history", "start": "pheno", "light": True, "ops": [["set_transit_compartments", {"n": 10}], ["add_peripheral_compartment", {}]], "seed": 23},
+        {"kind": "history", "start": "pheno", "light": True, "ops": [["set_transit_compartments", {"n": 9}], ["add_peripheral_compartment", {}]], "seed": 24},
+        {"kind": "history", "start": "pheno", "light": True, "ops": [["set_transit_compartments", {"n": 12}]], "seed": 25},
+        {"kind": "history", "start": "basic_oral", "light": True, "ops": [["set_transit_compartments", {"n": 11}], ["add_peripheral_compartment", {}],
+                                                                       ["add_peripheral_compartment", {}]], "seed": 26},
         {"kind": "history", "start": "pheno", "ops": [["add_iov", {"occ": "FA1"}], ["add_covariate_effect", {"parameter": "CL", "covariate": "WGT", "effect": "exp", "allow_nested": True}],
                                                         ["remove_iov", {}]], "seed": 20},
     ]
@@ -1362,6 +1369,40 @@ def model_record_k(drv, model, k, tags, label):
         tags.append("k:update_model_record")
 
 
+def rate_name_k(drv, prev, model, k, mon, tags, label):
+    """General linear code (ADVAN5/7): the rate-constant names update.py writes vs Lean's rateParam (PharmpyModel/C02/RateName.lean,
+    theorem rate_name_roundtrip), and each written name decoded by the Lean model of _find_rates must be the flow it was written for."""
+    c_advan, _ = code_advan(model)
+    cmap = model.internals.compartment_map
+    cs = model.statements.ode_system
+    if c_advan not in ("ADVAN5", "ADVAN7") or cmap is None or cs is None:
+        return
+    n = cmap.get("OUTPUT", len(cmap) + 1)
+    before = {s_.symbol.name for s_ in prev.statements if isinstance(s_, Assignment)}
+    now = {s_.symbol.name for s_ in model.statements.before_odes if isinstance(s_, Assignment)}
+    expected_new = set()
+    for src in cs.compartment_names:
+        sc = cs.find_compartment(src)
+        for dst in list(cs.compartment_names) + ["OUTPUT"]:
+            if dst == src:
+                continue
+            dc = output if dst == "OUTPUT" else cs.find_compartment(dst)
+            if cs.get_flow(sc, dc) == 0 or src not in cmap or (dst != "OUTPUT" and dst not in cmap):
+                continue
+            sn, dn = cmap[src], (n if dst == "OUTPUT" else cmap[dst])
+            ans = drv.ask(["ratename", n, sn, dn])
+            name, syn, dec = ans[0], ans[1], ans[2]
+            tags.append("k:ratename" + ("-2digit" if sn >= 10 or dn >= 10 else ""))
+            if dec != ["flow", str(sn), str(dn)]:
+                k.append(f"{label}: Lean reads its own rate name {name} as {dec}, written for {sn}->{dn} (n={n})")
+            present = [x for x in syn if x in now]
+            if not present:
+                k.append(f"{label}: flow {src}({sn})->{dst}({dn}) of {n}: none of {syn} is assigned in the model ({sorted(x for x in now if x.startswith('K'))})")
+            elif name not in now and not any(x in before for x in present):
+                k.append(f"{label}: flow {sn}->{dn} of {n}: the code introduced {present}, Lean's rateParam gives {name}")
+            expected_new.add(name)
+
+
 def dose_updater_k(drv, model, k, tags, label, rng):
     """update_bio / update_lag_time on the reached model with the dosing compartment's attribute replaced by
     (1 | Fn | another reserved F | another symbol | an expression): real result vs the Lean updaters."""
@@ -1497,6 +1538,8 @@ def run_history(case, drv):
                     if mr is not None and mr != cs.compartment_names:
                         mon.append({"cls": witness_class(model, "model-record-order"),
                                     "what": f"{label}: $MODEL lists {mr}, compartment numbering is {cs.compartment_names}"})
+            if cs is not None and drv is not None:
+                rate_name_k(drv, prev, model, k, mon, tags, label)
             if cs is not None and drv is not None and not case.get("light"):
                 dose_updater_k(drv, model, k, tags, label, rng)
                 model_record_k(drv, model, k, tags, label)
